@@ -17,6 +17,7 @@ CHECKER = "./bin/check C09 (pyvc on esr/fitting/likelihood.py -> z3)"
 
 
 def check(run):
+    D.lemma_library(run)
     jobs = [(cls + ".negloglike", (lambda cls=cls, v=v: C.negloglike_contract(cls, v)), v)
             for cls in ("GaussLikelihood", "PoissonLikelihood", "MSE", "CCLikelihood", "MockLikelihood") for v in ("array", "scalar", "raises")]
     jobs += [("Likelihood.get_pred", (lambda v=v: C.base_get_pred_verify_contract(v)), v) for v in ("array", "scalar", "raises")]
